@@ -3,7 +3,7 @@
 usage: seedrun.py [seed-dir ...]   (default: all /verif/seeded/*)"""
 import glob, json, os, re, subprocess, sys, time
 V = '/verif'
-seeds = sys.argv[1:] or sorted(glob.glob(V + '/seeded/*'))
+seeds = sys.argv[1:] or sorted(d for d in glob.glob(V + '/seeded/*') if os.path.isdir(d))
 man = json.load(open(V + '/MANIFEST.json'))
 cmds = {c['property_id']: c['quick_cmd'] for c in man['checks']}
 out = []
